@@ -13,15 +13,16 @@ class ScriptSock:
     def __init__(self):
         self.script, self.accepted, self.offered, self.offered_after_fatal, self.fatal_seen = [], b"", 0, 0, False
         self.shut = False
+        self.ferr, self.aerr = "EPIPE", "EAGAIN"
     def send(self, data, flags=0):
         self.offered += 1
         if self.fatal_seen or self.shut: self.offered_after_fatal += 1
         o = self.script.pop(0) if self.script else {"o": "accept", "k": 1 << 30}
         if self.fatal_seen or self.shut: o = {"o": "fatal"}          # a shut-down socket refuses every write
-        if o["o"] == "again": raise socket.error(errno.EAGAIN, "EAGAIN")
+        if o["o"] == "again": raise socket.error(getattr(errno, self.aerr), self.aerr)
         if o["o"] == "fatal":
             self.fatal_seen = True
-            raise socket.error(errno.EPIPE, "EPIPE")
+            raise socket.error(getattr(errno, self.ferr), self.ferr)
         k = min(o["k"], len(data))
         self.accepted += bytes(data[:k])
         return k
@@ -44,6 +45,11 @@ class ScriptSock:
 def data(i, n):
     return bytes(((i * 37 + k * 5 + 1) & 0xff) for k in range(n))
 
+
+# which errno a "fatal" / "would block" outcome carries is a case parameter: every error other than would-block is fatal for
+# the send path (the model has one `fatal` outcome), whatever its number
+FERRS = ["EPIPE", "ECONNRESET", "ENOTCONN", "EBADF", "ETIMEDOUT", "ECONNABORTED", "EHOSTUNREACH", "ENETDOWN", "ENETUNREACH", "ESHUTDOWN", "EIO", "ENOBUFS", "EINVAL", "EACCES"]
+AERRS = ["EAGAIN", "EWOULDBLOCK"]
 
 OUTS = [{"o": "accept", "k": 1 << 30}, {"o": "accept", "k": 1}, {"o": "accept", "k": 3}, {"o": "again"}, {"o": "fatal"}, {"o": "accept", "k": 0}]
 
@@ -79,6 +85,7 @@ class C20(Check):
                    "IOWorker: connecting sockets (_connecting/_try_connect) and shutdown(send) are not modelled"]
     rule = ("case A = op sequence over {send, send_fast(outcome), loop iteration(outcome), loop iteration with the worker readable AND writable (data / end of stream / receive error, then outcome)}; case B = action sequence over {Connection.send(data, outcome), sender iteration(outcomes), "
             "other connection defers / is flushed}; corpus = all sequences of 3 messages x 4 calls over 6 outcomes (A) and all B sequences of length <= 4 over a 9-letter alphabet; "
+            "every case carries the errno of its fatal outcome (14 numbers) and the spelling of would-block (EAGAIN / EWOULDBLOCK): every error other than would-block is fatal (the code's rule, the model's single `fatal` outcome); "
             "non-trivial = a partial write, EAGAIN or fatal outcome was consumed")
 
     def setup(self):
@@ -135,6 +142,18 @@ class C20(Check):
             for more in ([3], [4], [1, 3], [2, 3], [5, 3]):
                 for tail in ([{"op": "flush", "outs": [0, 0]}], [{"op": "send", "i": 1, "n": 4, "o": 0}, {"op": "flush", "outs": [1, 0]}], [{"op": "flush", "outs": [3]}, {"op": "send", "i": 1, "n": 4, "o": 3}]):
                     cases.append({"part": "B", "pb": 2, "ops": [{"op": "send", "i": 0, "n": 9, "o": o1, "more": more}] + tail + [{"op": "flush", "outs": []}, {"op": "flush", "outs": []}]})
+        # every fatal errno (and both spellings of would-block) through one fatal-after-partial-write history of each part
+        for fe in FERRS:
+            for ae in AERRS:
+                for o1 in (1, 3, 4):
+                    cases.append({"part": "A", "ferr": fe, "aerr": ae, "ops": [{"op": "send", "i": 0, "n": 5}, {"op": "pump", "o": o1}, {"op": "sendfast", "i": 1, "n": 4, "o": 3},
+                                                                                 {"op": "pump", "o": 4}, {"op": "send", "i": 2, "n": 3}, {"op": "pump", "o": 0}, {"op": "pump", "o": 0}]})
+                    cases.append({"part": "A", "ferr": fe, "aerr": ae, "ops": [{"op": "sendfast", "i": 0, "n": 5, "o": o1}, {"op": "sendfast", "i": 1, "n": 4, "o": 4},
+                                                                                 {"op": "pump", "o": 0}, {"op": "sendfast", "i": 2, "n": 2, "o": 0}, {"op": "pump", "o": 0}]})
+                    cases.append({"part": "B", "pb": 2, "ferr": fe, "aerr": ae, "ops": [{"op": "send", "i": 0, "n": 5, "o": o1}, {"op": "send", "i": 1, "n": 5, "o": 3}, {"op": "flush", "outs": [1, 3]},
+                                                                                          {"op": "flush", "outs": [0, 4]}, {"op": "send", "i": 2, "n": 3, "o": 0}, {"op": "flush", "outs": []}, {"op": "flush", "outs": []}]})
+                    cases.append({"part": "B", "pb": 2, "ferr": fe, "aerr": ae, "ops": [{"op": "send", "i": 0, "n": 5, "o": o1}, {"op": "send", "i": 1, "n": 5, "o": 4}, {"op": "send", "i": 2, "n": 3, "o": 0},
+                                                                                          {"op": "flush", "outs": []}, {"op": "flush", "outs": []}]})
         # the Lean regression witness `raceActs` (former finding C20-R1) replayed on the real code: the sender thread's fatal
         # error is interleaved at the log call between Connection.send's `disconnected`/`sending` tests and its deferred enqueue
         cases.append({"part": "B", "pb": 512, "ops": [{"op": "send", "i": 0, "n": 1, "o": 3}, {"op": "send_raced", "i": 1, "n": 1, "outs": [4]},
@@ -154,7 +173,7 @@ class C20(Check):
                     else: ops.append({"op": "pumprw", "rx": rng.choice(["data", "data", "eof", "error"]), "o": self._rout(rng)})
                     if ops[-1]["op"] != "send" and rng.random() < 0.3:          # what further calls in the same pass would get
                         ops[-1]["more"] = [self._rout(rng) for _ in range(rng.randint(1, 3))]
-                yield {"part": "A", "ops": ops + [{"op": "pump", "o": 0}] * 2}
+                yield {"part": "A", "ferr": rng.choice(FERRS), "aerr": rng.choice(AERRS), "ops": ops + [{"op": "pump", "o": 0}] * 2}
             else:
                 ops = []
                 for k in range(rng.choice([3, 6, 12, rng.randint(1, 30)])):
@@ -165,7 +184,7 @@ class C20(Check):
                     elif r < 0.85: ops.append({"op": "flush", "outs": [self._rout(rng) for _ in range(rng.randint(0, 5))]})
                     elif r < 0.93: ops.append({"op": "envenq"})
                     else: ops.append({"op": "envdone"})
-                yield {"part": "B", "pb": rng.choice([1, 2, 4, 512]), "ops": ops + [{"op": "flush", "outs": []}] * 2}
+                yield {"part": "B", "pb": rng.choice([1, 2, 4, 512]), "ferr": rng.choice(FERRS), "aerr": rng.choice(AERRS), "ops": ops + [{"op": "flush", "outs": []}] * 2}
         # part T: the REAL threads (cooperative thread in Connection.send, sender thread in DeferredSender.run) under the forced
         # thread scheduler; the executed trace is translated into model actions and replayed through cstep
         for c in self._thread_cases(rng, tier): yield c
@@ -218,6 +237,7 @@ class C20(Check):
         iow = self.iow
         loop = iow.RecocoIOLoop()
         sock = ScriptSock()
+        sock.ferr, sock.aerr = case.get("ferr", "EPIPE"), case.get("aerr", "EAGAIN")
         w = loop.new_worker(sock)
         closes = []
         w.close_handler = lambda worker: closes.append(1)
@@ -290,6 +310,7 @@ class C20(Check):
         of_01.select = FakeSelect
         try:
             s1, s2 = ScriptSock(), ScriptSock()
+            for s_ in (s1, s2): s_.ferr, s_.aerr = case.get("ferr", "EPIPE"), case.get("aerr", "EAGAIN")
             con, con2 = of_01.Connection(s1), of_01.Connection(s2)      # each writes its hello
             hello = len(s1.accepted)
             # the connection counts as announced (ConnectionUp raised), so that losing it must be reported: exactly one
